@@ -27,6 +27,9 @@ Parts (every one a complete enumeration of a stated finite space, simplest first
            alphabet (--reg/--state/--poke/--move/--patch) x input kinds; as single options
            on 128K inputs also the complete RAM bank dimension: --poke and --patch in every
            bank 0..7, --move for every source bank 0..7 x destination bank {omitted, 0..7}
+           and (snapmod and bin2sna) the complete product of --poke range specs: span 0..5 x
+           step {omitted,1..4} x {set,^,+} x anchors at RAM start / paged-bank boundary /
+           memory end and, bank-prefixed, bank start / mid-bank / bank end (poke_letters)
   bin2sna  the same for --reg/--state/--poke (and -b/-p/-s) x {48K, --page, 128K file}
            x {.z80,.szx}, as a differential against the option-less run
 """
@@ -389,6 +392,13 @@ class Model:
             self.notes.add('poke_step')
         if page is not None:
             self.notes.add('poke_page')
+        if c > 1:
+            pfx = 'poke_step' if page is None else 'poke_page_step'
+            self.notes.add(pfx + ('_divides_span' if (b - a) % c == 0 else '_not_dividing_span'))
+            if b - a < c:
+                self.notes.add(pfx + '_over_span')
+        if len(parts) > 1 and (b % PAGE == PAGE - 1 if page is not None else b == 65535):
+            self.notes.add('poke_range_to_bank_end' if page is not None else 'poke_range_to_memory_end')
         n = a
         while n <= b:
             cell = self._cell(page, n)
@@ -485,6 +495,35 @@ def bank_letters(tool):
     return out
 
 
+POKE_SPANS = (0, 1, 2, 3, 4, 5)
+POKE_STEPS = (None, 1, 2, 3, 4)
+POKE_OPS = (('', 165), ('^', 90), ('+', 60))
+POKE_BANKS_QUICK = (0, 7)
+
+
+def poke_letters(is128, quick):
+    """The complete product of --poke range specs [p:]a-b[-c],[^+]v: span b-a in 0..5 x
+    step c in {omitted,1,2,3,4} (so the step divides the span, does not divide it, exceeds
+    it) x operation {set, ^, +} x anchor, where the anchors are, without a bank prefix:
+    a = 16384 (start of RAM), a = 49150 (crossing into the paged bank), b = 65535 (end of
+    memory); with a bank prefix p (128K; quick p in {0,7}, thorough p in 0..7): a = 0 (bank
+    start), a = 56320 (mid-bank, 16-bit address form), b = 16383 (bank end)."""
+    anchors = [('', 16384, None), ('', 49150, None), ('', None, 65535)]
+    if is128:
+        for p in (POKE_BANKS_QUICK if quick else range(8)):
+            pre = '{}:'.format(p)
+            anchors += [(pre, 0, None), (pre, 56320, None), (pre, None, 16383)]
+    out = []
+    for pre, a0, b0 in anchors:
+        for d in POKE_SPANS:
+            a, b = (a0, a0 + d) if b0 is None else (b0 - d, b0)
+            for c in POKE_STEPS:
+                rng = '{}-{}'.format(a, b) if c is None else '{}-{}-{}'.format(a, b, c)
+                for op, v in POKE_OPS:
+                    out.append(('poke', '{}{},{}{}'.format(pre, rng, op, v)))
+    return out
+
+
 def letters(tool, is128, v1=False, reduced=False, banks=False):
     """The option alphabet: list of (kind, value).  banks: with the complete bank dimension
     (bank_letters) appended; used for the single options on 128K inputs."""
@@ -545,6 +584,10 @@ def option_cases(tier, seed):
         for kind in allkinds:
             is128 = kind[1] != '48K' if tool == 'snapmod' else kind[0] != '48K'
             for a in letters(tool, is128, v1=kind[0] == 'z80v1', banks=True):
+                yield tool, kind, [a]
+        for kind in kinds:
+            is128 = kind[1] != '48K' if tool == 'snapmod' else kind[0] != '48K'
+            for a in poke_letters(is128, quick):
                 yield tool, kind, [a]
         for ki, kind in enumerate(kinds):
             if quick and tool == 'bin2sna' and (ki + seed) % 2:
@@ -1201,6 +1244,9 @@ REQUIRED_GUARDS = [
     'machine_plus2', 'r_bit7', 't_quarter0', 't_quarter1', 't_quarter2', 't_quarter3',
     'poke_set', 'poke_xor', 'poke_add', 'poke_step', 'poke_page', 'poke_rom', 'move_page', 'move_overlap', 'patch_page',
     'move_dest_bank_explicit', 'move_dest_bank_omitted', 'move_cross_bank',
+    'poke_step_divides_span', 'poke_step_not_dividing_span', 'poke_step_over_span',
+    'poke_page_step_divides_span', 'poke_page_step_not_dividing_span', 'poke_page_step_over_span',
+    'poke_range_to_bank_end', 'poke_range_to_memory_end',
     'pair_order_dependent', 'szx_only_field_on_z80',
 ]
 
@@ -1217,16 +1263,20 @@ def run(tier, seed):
              'forms; (state) all deviations d<=2 from a base state over register and hardware-state boundary sets x {{48K,128K,+2}} x {{z80,szx}}{}; (snapmod, bin2sna) every single option and '
              'every ordered pair from the option alphabet x input kinds, and as single options on every 128K/+2 input kind the complete '
              'RAM bank dimension: a banked --poke (and, snapmod, --patch) in every bank 0..7 and a banked --move for every source '
-             'bank 0..7 x destination bank in {{omitted, 0..7}} (72 specs). states = distinct case classes (string / run / set of '
+             'bank 0..7 x destination bank in {{omitted, 0..7}} (72 specs), and as single options on the four snapmod (z80v3/szx x '
+             '48K/128K) and six bin2sna input kinds the complete product of --poke range specs [p:]a-b[-c],[^+]v: span b-a in 0..5 x '
+             'step c in {{omitted,1,2,3,4}} x operation {{set,^,+}} x anchor {{a=16384, a=49150, b=65535; with bank prefix p in {}: '
+             'a=0, a=56320, b=16383}}. states = distinct case classes (string / run / set of '
              'deviating dimensions per machine / option-kind sequence per input kind); non-trivial = string contains ED, any run, '
              'any deviation, any option'.format(
                  9 if quick else 10, 6 if quick else 7, len(RUN_VALUES_QUICK) if quick else 255, list(RUN_LENGTHS),
+                 '{0,7}' if quick else '0..7',
                  ' (quick: register x register pairs on the machine selected by the seed, register x state pairs for R, A, I only)'
                  if quick else ' plus every T-state value 0..frame-1 of both frame lengths'),
         exhaustive=True,
         bound='quick: strings <= 9 / embedded <= 6, 7 run byte values, T-state boundary set; reduced register alphabet in option '
-              'pairs; bin2sna option pairs on 3 of the 6 (input kind, format) combinations' if quick else
-              'thorough: strings <= 10 / embedded <= 7, all 255 run byte values, every T-state value, full option alphabet pairs',
+              'pairs; bin2sna option pairs on 3 of the 6 (input kind, format) combinations; bank-prefixed poke range product on banks 0 and 7' if quick else
+              'thorough: strings <= 10 / embedded <= 7, all 255 run byte values, every T-state value, full option alphabet pairs, bank-prefixed poke range product on banks 0..7',
         assumptions=[
             'reference decoders mc/refs/snapfmt.py (written from the Z80 and ZX-State format descriptions) are the independent reader',
             'register values are inside the register width, tstates inside 0..frame-1 (SZX stores T-states unreduced; out of domain)',
